@@ -1011,7 +1011,9 @@ func (x *Exec) step(st *State, fr *Frame, in ssa.Instruction) {
 			fr.env[ins] = x.load(st, xv, ins.Type())
 			if src, ok := xv.(PtrV); ok {
 				if tv, ok := fr.env[ins].(TV); ok && tv.Ty != nil {
-					if _, isPtr := tv.Ty.Underlying().(*types.Pointer); isPtr && strings.HasPrefix(e.Sort(tv.Ty), "(Opt") {
+					_, isPtr := tv.Ty.Underlying().(*types.Pointer)
+					_, isSlice := tv.Ty.Underlying().(*types.Slice)
+					if (isPtr && strings.HasPrefix(e.Sort(tv.Ty), "(Opt")) || (isSlice && strings.HasPrefix(e.Sort(tv.Ty), "(GSeq")) {
 						if fr.origin == nil {
 							fr.origin = map[ssa.Value]PtrV{}
 						}
